@@ -23,22 +23,35 @@ drv = _drv_retry
 
 THEOREMS = ["Cog.Builder." + t for t in [
     "C17_builder_omit_removes", "C17_builder_rename_only_renames", "C17_builder_frame_inplace",
-    "C17_builder_duplicate_shape", "C17_builder_duplicate_identical_partial",
-    "C17_builder_duplicate_identical_counterexample", "C17_builder_merge_into_frame", "C17_builder_compose_frame",
+    "C17_builder_duplicate_shape", "C17_builder_duplicate_identical",
+    "C17_builder_duplicate_dropped_defaults_before_fix", "C17_builder_merge_into_frame", "C17_builder_compose_frame",
     "C17_option_omit_removes", "C17_option_rename_only_renames", "C17_option_add_comments_only_comments",
-    "C17_option_duplicate_shape", "C17_option_duplicate_identical_partial", "C17_option_duplicate_identical_counterexample",
+    "C17_option_duplicate_shape", "C17_option_duplicate_identical", "C17_option_duplicate_dropped_default_before_fix",
     "C17_array_to_append_same_target", "C17_map_to_index_same_target", "C17_unfold_boolean_same_target",
     "C17_struct_fields_as_options_same_targets", "C17_struct_fields_as_arguments_same_targets",
     "C17_disjunction_as_options_same_target",
     "C17_builder_rule_preserves", "C17_option_rule_preserves", "C17_seq", "C17_seq_counterexample",
     "C17_seq_counterexample_shared_pointer", "C17_seq_counterexample_unfold_after_index",
     "C17_frame_norules_partial", "C17_frame_norules_counterexample", "C17_frame_counterexample_shared_pointer",
-    "C17_option_frame", "C17_option_frame_counterexample", "C17_seq_counterexample_sf_opts_after_append", "C17_seq_counterexample_only_first_assignment", "C17_seq_counterexample_promote_first_argument_only",
+    "C17_option_frame", "C17_option_frame_counterexample", "C17_seq_counterexample_sf_opts_after_append", "C17_seq_counterexample_only_first_assignment", "C17_seq_counterexample_promote_first_argument_only", "C17_seq_counterexample_map_to_index_after_append",
     "C17_derived_WT", "C17_end_to_end", "C17_derived_option_fresh", "C17_array_to_append_preserves_fresh",
     "C17_map_to_index_preserves_fresh", "C17_unfold_boolean_preserves_fresh",
 ]]
 WITNESSES = ["dup-option-default", "dup-builder-default", "dismissed", "rename-args-constraint",
-             "promote-array-to-append", "merge-rename-arguments", "map-index-unfold", "sf-opts-after-append", "add-assignment-array-to-append", "map-index-promote"]
+             "promote-array-to-append", "merge-rename-arguments", "map-index-unfold", "sf-opts-after-append", "add-assignment-array-to-append", "map-index-promote", "append-then-map-to-index"]
+# fixed in /repo 71b1811 (Option.DeepCopy copies Default): replayed as must-pass, a relapse is a violation
+MUST_PASS = {"dup-option-default", "dup-builder-default"}
+# Found after the coordinator's merge (scenario sequences, seed 4); sent to the coordinator for
+# /verif/known_findings.json. Used only while that file does not list the id yet; delete once merged.
+PENDING = [{
+ "id": "C17/map_to_index/append-target-not-handled",
+ "property": "C17",
+ "what": "option.MapToIndexAction appends the index item to `option.Assignments[0].Path` whatever that path's type is: after array_to_append on a field `[]map[K]V` the option's argument is the map but the path still ends in the array, so map_to_index produces `ms[key] = m` with an index item of type V on an array of maps (same family as struct_fields_as_options after array_to_append)",
+ "match": "FAIL wt-broken\\(option-map_to_index/option/index-item-type-through-array-of-maps(/after-[a-z_+]+)?\\):",
+ "pinned": "0:0:pinned:append-then-map-to-index:",
+ "pinned_input": "schemas: package p { S = \u2026; M = struct { ms?: []map[string]string } }; veneers (language all, package p): options: - array_to_append: {by_name: M.ms} - map_to_index: {by_name: M.ms}  ->  option ms has Args [key string, m string], path ms(array of map)[key] with index item type string"
+}]
+FIXED_IDS = {"C17/duplicate-option/default-dropped", "C17/duplicate-builder/option-defaults-dropped"}
 GO_ONLY_PINNED = ["compose-then-initialize"]
 FILES = HARNESS_BASE + ["vir_builders.go", "c16_*.go", "c17_*.go"]
 
@@ -58,6 +71,9 @@ def case_of(rp):
 
 def main():
     c = Check("C17")
+    # repaired in /repo 71b1811: these entries explain nothing any more, whatever known_findings.json still lists
+    c.known = [f for f in c.known if f["id"] not in FIXED_IDS]
+    c.known += [f for f in PENDING if f["id"] not in {k["id"] for k in c.known}]
     c.trusted = [
         "Lean 4.33 kernel; axioms per theorem are listed in obligation_list (subset of propext, Classical.choice, Quot.sound)",
         "hand-written model lean/Cog/Builder/Veneers.lean of internal/veneers/{builder,option,rewrite} + internal/yaml veneer glue + internal/veneers/types.go, tied by the c17-veneer correspondence stream: generated rule files are loaded THROUGH yaml.VeneersLoader and applied by rewrite.Rewriter.ApplyTo; the model gets the same files as decoded by yaml.v3 into yaml.Veneers (second decode, same settings)",
@@ -100,6 +116,7 @@ def main():
 
     # 1. the Lean counterexample witnesses replayed on the real code (= pinned inputs of the findings)
     for name in WITNESSES:
+        must_pass = name in MUST_PASS
         case = "0:0:pinned:%s:" % name
         row = harness(hb, "c17-eval", case=case)[0]
         lw = drv(["c17witness " + name])[0]
@@ -109,9 +126,11 @@ def main():
         model = drv([row[0]])[0]
         c.oblige("witness %s: model reply on the harness request equals the real output" % name, model == row[1], (model[:300], row[1][:300]))
         if row[2].startswith("FAIL"):
-            if not c.match_known(row[0] + "\t" + row[2]):
+            if must_pass or not c.match_known(row[0] + "\t" + row[2]):
                 c.violation({"kind": "oracle-failure", "stream": "c17-pinned", "case": case, "request": row[0], "impl": row[1], "oracle": row[2]})
-        else:
+            if must_pass:
+                c.oblige("pinned input %s (fixed in /repo) passes on the real code" % name, False, row[2])
+        elif not must_pass:
             c.oblige("witness %s still fails on the real code (else: the model and the _counterexample theorem must change with the code)" % name, False, row[2])
         c.count("c17-pinned", 1, [row[0]])
 
